@@ -1,11 +1,12 @@
-\* header forms x families: one family per case (81, 112, 118 = one of each class of Granularity(); 59 AVR, 26..29 PDK =
-\* all whose granularity depends on the segment), <= 3 records, each short CODE / long CODE / long DATA in every order
+\* header forms x families (FormCases): one family per case -- 81, 112, 118 = one of each class of toolutils.c
+\* Granularity(); 59 AVR, 26..29 PDK13..16 = ALL whose granularity depends on the segment --, <= 2 records each short CODE /
+\* long CODE / long DATA at 0 or 3, in every order x automatic range / -r 0-5 x -segment code / data
 CONSTANTS
   Dev = {}
-  MaxRecs = 3
+  MaxRecs = 2
   Starts = {0, 3}
   UnitLens = {2}
-  GranSet = {1, 2, 4}
+  GranSet = {}
   EntryAddrs = {}
   Offsets = {}
   FillSet = {255}
